@@ -429,6 +429,11 @@ func genWorld(rng *rand.Rand, idx int) *world {
 			}
 		}
 	}
+	// hash-prefix lists also hold hosts with exactly four labels (the deepest name
+	// the filters look up) whose parents are not necessarily listed
+	for i, name := range w.Names[len(scenarios):] {
+		w.Safety[[]string{"danger", "adult", "newreg"}[i%3]].Hosts["l4.s."+name] = true
+	}
 	// a few response-side noise rules on pool addresses / CNAME targets
 	for _, s := range w.Lists {
 		for k := 0; k < 2; k++ {
@@ -513,6 +518,7 @@ type cfg struct {
 	TTL       uint32   `json:"ttl"`
 	ProfID    string   `json:"profile_id,omitempty"`
 	DevID     string   `json:"device_id,omitempty"`
+	DevName   string   `json:"device_name,omitempty"`
 	Group     int      `json:"group"`
 
 	fconf   filter.Config
@@ -580,7 +586,7 @@ func genCfg(rng *rand.Rand, w *world, idx, k int, anonymous bool, shape string) 
 // view derives what the evaluator needs from the documented meaning of the
 // configuration switches.
 func (c *cfg) view(w *world) *view {
-	v := &view{Filtering: c.Anonymous || (c.ProfOn && c.DevOn)}
+	v := &view{Filtering: c.Anonymous || (c.ProfOn && c.DevOn), Client: c.DevName}
 	if c.CustomOn && c.Custom != nil && len(c.Custom.Rules) > 0 {
 		v.Rules = append(v.Rules, c.Custom)
 	}
@@ -705,8 +711,12 @@ type clearMgr struct {
 	caches []agdcache.Clearer
 }
 
-func (m *clearMgr) Add(_ string, c agdcache.Clearer) { m.mu.Lock(); m.caches = append(m.caches, c); m.mu.Unlock() }
-func (m *clearMgr) ClearByID(string)                  {}
+func (m *clearMgr) Add(_ string, c agdcache.Clearer) {
+	m.mu.Lock()
+	m.caches = append(m.caches, c)
+	m.mu.Unlock()
+}
+func (m *clearMgr) ClearByID(string) {}
 func (m *clearMgr) clearAll() {
 	m.mu.Lock()
 	defer m.mu.Unlock()
